@@ -123,6 +123,38 @@ CLAIMS = {
             "x boundary catalogue; each case runs through the real pipeline and is compared (exact, or within 1e-9 where the result is not a dyadic).",
             "libm accuracy beyond exact cases is Unpinned; TLC's 32-bit integers limit operands to the catalogue.",
             "TLA+ spec + TLC-exported boundary cases replayed on the real function descriptors", "DESIGN.md 6/C13"),
+    "C01": ("model_checking",
+            "Relational.tla gives the batch meaning of single-source SELECT (WHERE with three-valued logic, projections, DISTINCT, ORDER BY on output columns with "
+            "NULL first and bytewise strings, LIMIT, subqueries in FROM, WITH) and renders the SQL text itself. TLC draws (query, table) pairs under its seed and "
+            "computes the expected result as a sequence of tie groups; each query runs through the real parser, typechecker, optimiser, materialiser and "
+            "execution nodes (in-process mirror of cmd/root.go's csv/json branch) and the rows are compared; a CLI sample covers what octosql prints "
+            "(see C05/C25 for the output modes).",
+            "Sampled, not exhaustive. Trusted: engine glue copied from cmd/root.go (kept in step with it), comparison of tie groups in Python.",
+            "TLA+ relational spec as oracle + TLC-generated query/table cases replayed through the real pipeline", "DESIGN.md 6/C01"),
+    "C02": ("model_checking",
+            "Relational.tla join layer (inner / LEFT / RIGHT / OUTER / LOOKUP, Eq3 key matching, NULL padding) for TLC-generated queries and tables with NULL "
+            "and duplicate keys, run through the real pipeline with the optimiser on and off; plus StreamJoin.tla at node level (JoinBag with NULL keys never "
+            "matching) under every interleaving and close order for script pairs up to 2 messages per side, enforced on the real nodes with the JoinRecv hook. "
+            "Three defects found were repaired.",
+            "Sampled queries; exhaustive small schedules. Trusted: engine glue, gate scheduler.", "TLA+ relational spec + TLC interleaving model, replayed on the real pipeline and nodes",
+            "DESIGN.md 6/C02"),
+    "C03": ("model_checking",
+            "Relational.tla grouping layer (one row per present key incl. NULL, aggregates over non-NULL inputs, NULL when none, truncating AVG, ascending "
+            "array_agg, DISTINCT variants) for TLC-generated grouping queries, also over retracting sources (grouping subqueries with COUNTING triggers), run "
+            "through the real pipeline with both optimiser settings; the aggregates themselves are covered path-exhaustively by C14 and both group-by nodes by C16.",
+            "Sampled. Int inputs only at this level.", "TLA+ relational spec as oracle + TLC-generated cases replayed through the real pipeline", "DESIGN.md 6/C03"),
+    "C04": ("translation_validation",
+            "Every generated (query, database) case - the C01-C03 families plus a family aimed at each rewrite rule - is executed with the optimiser on and off "
+            "through the real pipeline; both outputs are compared with Sem(query, database) of Relational.tla and with each other, so every observed rewrite is "
+            "validated on concrete databases and a disagreement is attributed to one side.",
+            "The in-memory datasource honours schema pruning but pushes no predicates down (file datasources do not either). Sampled.",
+            "TLC-generated programs executed optimised and unoptimised, both validated against the TLA+ relational semantics", "DESIGN.md 6/C04"),
+    "C08": ("model_checking",
+            "Types.tla ValueInType is an independent reading of type terms. (function, static argument types, reported result type, value) observations are "
+            "recorded from the real typecheck/materialise/evaluate pipeline for every overload on the C12/C13 catalogues with exact, nullable and "
+            "multi-alternative (NULL | T | String) argument typings and NULL in each position; TLC checks ValueInType(value, reported type) on every observation.",
+            "Expression level (aggregates and file schemas are covered by C03/C24 runs).", "TLA+ type denotation + TLC check of observed (type, value) pairs from the real pipeline",
+            "DESIGN.md 6/C08"),
 }
 
 NA_DEFAULT = "check not built yet (work in progress; will be claimed once its TLA+ spec and conformance harness are committed)"
